@@ -347,7 +347,8 @@ func main() {
 	// computed floats: shortest round trip, valid JSON
 	fl := ctx.NewOracle("float-print", "computed float64 values printed by gojq.Marshal parse back (strconv) to the same bits; NaN prints null; ±Inf print ±1.7976931348623157e308; distinct = distinct bit patterns")
 	seenF := map[uint64]bool{}
-	addc := compile(". + 0")
+	addc := compile(". * 1") // a computed float64 that keeps the operand's bits (also the sign of zero)
+	tjc := compile(". * 1 | tojson, tostring, \"\\(.)\", @text, @json")
 	for i := 0; i < ctx.N(20000, 400000); i++ {
 		var f float64
 		if i < len(common.InterestingFloats()) {
@@ -377,7 +378,7 @@ func main() {
 			var back float64
 			if !json.Valid(b) {
 				ok = false
-			} else if err := json.Unmarshal(b, &back); err != nil || (back != f && !(back == 0 && f == 0)) {
+			} else if err := json.Unmarshal(b, &back); err != nil || math.Float64bits(back) != math.Float64bits(f) {
 				ok = false
 			} else {
 				// shortest: no shorter digit string reads back equal (checked against strconv 'g' -1)
@@ -390,6 +391,20 @@ func main() {
 		if !ok {
 			ctx.Violate(fmt.Sprintf("floatprint:%016x", math.Float64bits(f)), fmt.Sprintf("float %016x prints as %s", math.Float64bits(f), s),
 				map[string]any{"bits": fmt.Sprintf("%016x", math.Float64bits(f)), "observed": s})
+		}
+		// the in-language printers use the same encoder: tojson, tostring, interpolation, @text, @json
+		if i < 400 || i%20 == 0 {
+			it := tjc.Run(f)
+			for k := 0; k < 5; k++ {
+				w, ok := it.Next()
+				if !ok {
+					break
+				}
+				if ws, isStr := w.(string); !isStr || ws != s {
+					ctx.Violate(fmt.Sprintf("floatprint-inlang:%016x:%d", math.Float64bits(f), k), fmt.Sprintf("float %016x: in-language printer #%d (tojson, tostring, interpolation, @text, @json) gives %v, gojq.Marshal gives %s", math.Float64bits(f), k, w, s),
+						map[string]any{"bits": fmt.Sprintf("%016x", math.Float64bits(f)), "observed": fmt.Sprint(w), "marshal": s})
+				}
+			}
 		}
 	}
 	fl.Distinct = len(seenF)
